@@ -372,6 +372,8 @@ DEFAULT_PROFILE = dict(
     route_result_kinds=None,
     p_route_container_result=0.0,
     p_twin_subtype_trees=0.0,
+    p_sparse_namespace=0.0,
+    p_shared_route_name=0.0,
     route_alias_user_only=False,
 )
 
@@ -1157,6 +1159,14 @@ class Gen:
             name = self.low_name()
             if r.random() < 0.25:
                 name += '/' + r.choice(WORDS)
+            if self.p.get('p_shared_route_name') and r.random() < self.p['p_shared_route_name']:
+                # the same route name (and version) in two namespaces: routes are per namespace
+                mine = {x.name for x in existing}
+                others = sorted({d.name for n2 in self.m.namespaces if n2 is not ns for d in n2.defs
+                                 if d.kind == 'route' and d.version == 1 and d.name not in mine})
+                if others:
+                    name = r.choice(others)
+                    self.m.feature('route_name_shared_across_namespaces')
         d = RouteDef(name=name, ns=ns.name, version=version, doc=None,
                      arg=self.route_io(ns, 'arg'), result=self.route_io(ns, 'result'),
                      error=self.route_io(ns, 'error'), deprecated=None, attrs=OrderedDict())
@@ -1427,10 +1437,23 @@ class Gen:
             m.namespaces.append(ns)
             if imports:
                 m.feature('import', len(imports))
+            # "sparse" namespaces: nothing but annotation types, nothing but aliases, or routes without a
+            # single data type of their own (their signatures name imported types or Void)
+            sparse = None
+            if i > 0 and p.get('p_sparse_namespace') and r.random() < p['p_sparse_namespace']:
+                sparse = r.choice(['annotations_only', 'aliases_only', 'routes_only'])
+                m.feature('sparse_namespace_' + sparse)
+            if sparse == 'annotations_only':
+                self.p = dict(p, p_annotations=1.0, p_custom_ann=1.0)
             self.gen_annotations(ns)
+            self.p = p
             nt = r.randint(*p['n_types']) * (3 if big else 1)
+            if sparse in ('annotations_only', 'routes_only'):
+                nt = 0
             for _ in range(nt):
                 x = r.random()
+                if sparse == 'aliases_only':
+                    x = 0.0
                 if x < p['p_alias']:
                     self.gen_alias(ns)
                 elif x < p['p_alias'] + p['p_union']:
@@ -1449,7 +1472,7 @@ class Gen:
                         self.m.feature('marker_chain')
             self.gen_backrefs(ns)
             routes = []
-            for _ in range(r.randint(*p['n_routes']) * (2 if big else 1)):
+            for _ in range(0 if sparse == 'annotations_only' else r.randint(*p['n_routes']) * (2 if big else 1)):
                 routes.append(self.gen_route(ns, routes))
             for rt in routes:
                 rt.doc = self.doc(self.doc_refs_for(ns) if p['route_docs_refs'] else None)
